@@ -55,8 +55,16 @@ func (c *Ctx) gGenWriterCfg() gWriterCfg {
 	}
 }
 
+// gScenarioTokenizer, when set, is the tokenizer of every engine of the current scenario (writers,
+// merger, queries). strings.Fields returns substrings of its input (views into whatever buffer the
+// row bytes live in) and tokenizes this family's lower-case ASCII words exactly like the default.
+var gScenarioTokenizer bs.ValueTokenizerFunc
+
 func (w gWriterCfg) engineConfig() bs.BloomSearchEngineConfig {
 	cfg := bs.DefaultBloomSearchEngineConfig()
+	if gScenarioTokenizer != nil {
+		cfg.Tokenizer = gScenarioTokenizer
+	}
 	cfg.MinMaxIndexes = w.keys
 	cfg.PartitionFunc = gPartitionFunc
 	cfg.RowDataCompression = w.compression
